@@ -310,6 +310,20 @@ def warm_imports() -> None:
             importlib.import_module(name)
         except Exception:  # noqa: BLE001
             pass
+    # numba registers its implementations of the numpy.random functions lazily, keyed on the function objects it finds in
+    # numpy.random at that moment: make that happen now, not while the generator seam has wrappers installed there
+    try:
+        import numba
+        import numpy as np
+
+        @numba.njit
+        def _w(k):
+            np.random.seed(k)
+            return np.random.poisson(1.0) + np.random.random() + np.random.normal(0.0, 1.0)
+
+        _w(1)
+    except Exception:  # noqa: BLE001
+        pass
 
 
 def reset_process_state() -> None:
